@@ -32,6 +32,11 @@ def run(chk, replay=None):
         ("let s: u32 = jet::current_sequence(); assert!(jet::eq_32(s, witness::H));", {"H": ("U", 5)}),
         ("let l: u32 = jet::lock_time(); match witness::B { true => assert!(jet::eq_32(l, witness::H)), false => (), };", {"B": ("B",), "H": ("U", 5)}),
         ("match witness::B { true => jet::check_lock_height(witness::H), false => assert!(jet::eq_32(jet::version(), jet::version())), };", {"B": ("B",), "H": ("U", 5)}),
+        # no witness and no case node at all: the verdict comes from the environment / from constants only
+        ("assert!(jet::eq_8(7, 8));", {}), ("assert!(jet::eq_8(7, 7));", {}),
+        ("jet::check_lock_height(1000);", {}), ("jet::check_lock_height(0);", {}), ("jet::check_lock_time(500000001);", {}),
+        ("jet::check_lock_distance(50);", {}), ("jet::check_lock_distance(0);", {}), ("let v: u32 = jet::version(); assert!(jet::eq_32(v, 77));", {}),
+        ("let x: u8 = unwrap_left::<()>(Right(()));", {}), ("panic!();", {}),
     ]):
         p = Prog("fn main() { %s }" % cond, list(wt.items()), "env/%d" % i)
         env_progs.append(p)
@@ -49,6 +54,8 @@ def run(chk, replay=None):
         wr = chk.sub_rng("w/" + g.label)
         assigns, _, _ = corelib.witness_assignments(wr, g.witnesses, sample=4)
         assigns = getattr(g, "extra_assign", []) + assigns
+        if not g.witnesses:
+            assigns = [[]]
         for a in assigns[:(6 if quick else 40)]:
             full = list(a)
             for n, t in g.witnesses:
